@@ -488,6 +488,32 @@ def r5(prog, res, tab, E):
     res.info["r5_sites_per_code"] = {k: len(v) for k, v in sorted(sites.items())}
 
 
+def is_failure_action(x):
+    """a diagnostic, or a mark that resolution failed (resolve_failed() expands to an OR into .resolved)"""
+    if x["k"] == "Call" and x.get("fn") in c20.REPORTERS:
+        return True
+    if x["k"] in ("Assign", "CompoundAssign"):
+        lhs = strip(x["ch"][0])
+        if lhs["k"] == "Member" and lhs["n"] == "resolved":
+            return True
+    return False
+
+
+def r7(prog, res):
+    """E7(c): flags deciding a diagnostic inside a resolver loop are reset per iteration."""
+    from engines import iteration_flags
+    counters = {}
+    n = 0
+    nf = 0
+    for fn in prog.all_functions():
+        if fn.component != "express" or "/generated/" in fn.file:
+            continue
+        nf += 1
+        n += iteration_flags(fn, is_failure_action, "R7.per_iteration_flag", res, counters)
+    res.floor("R7.per_iteration_flag", "flag-guarded report sites inside loops", n, 1)
+    res.info["r7_functions_scanned"] = nf
+
+
 def run(prog, res, tier):
     t = c20.table(prog, res)
     if t is None:
@@ -499,6 +525,7 @@ def run(prog, res, tier):
     r4(prog, res)
     if E is not None:
         r5(prog, res, tab, E)
+    r7(prog, res)
     try:
         from rules import c04_lookup
         c04_lookup.run(prog, res, tier)
